@@ -28,6 +28,10 @@ func (e *Env) DefineValue(symbol string, value reflect.Value) error {
 	if strings.Contains(symbol, ".") {
 		return ErrSymbolContainsDot
 	}
+	if !value.IsValid() || !value.CanInterface() {
+		// such a binding could not be read back (Get would panic)
+		return fmt.Errorf("cannot bind '%s' to an invalid value", symbol)
+	}
 	e.rwMutex.Lock()
 	if e.values == nil {
 		e.values = make(map[string]reflect.Value)
@@ -67,6 +71,9 @@ func (e *Env) Set(symbol string, value interface{}) error {
 
 // SetValue reflect value to the scope where symbol is first found.
 func (e *Env) SetValue(symbol string, value reflect.Value) error {
+	if !value.IsValid() || !value.CanInterface() {
+		return fmt.Errorf("cannot bind '%s' to an invalid value", symbol)
+	}
 	e.rwMutex.Lock()
 	if _, ok := e.values[symbol]; ok {
 		e.values[symbol] = value
